@@ -101,14 +101,20 @@ PROPS = {
         jobs=[dict(harness="hist", prop="hist_c04", cases=(20000, 400000), size=(25, 60))],
     ),
     "C10": dict(
-        rule="C02 history generator (all compression modes, name/fd, rotations, external blocks, large strings). Oracle: per output, sum of the values returned by "
+        rule="(b) every serialisable structure (ClassType, QueryResponseSignature, Question, RR, MalformedMessageData, IndexListItem, StringItem, ResponseProcessingData, QueryResponseExtended, "
+             "BlockPreamble, BlockStatistics, Timestamp, AddressEventCount, QueryResponse, MalformedMessage, BlockParameters, StorageParameters, StorageHints, CollectionParameters, whole CdnsBlock) with "
+             "generated content incl. present-but-empty ones: write(encoder) on an encoder that receives only that call must return exactly the size of the output, which must be exactly one well-formed item. "
+             "(a) C02 history generator (all compression modes, name/fd, rotations, external blocks, large strings). Oracle: per output, sum of the values returned by "
              "buffer_*/write_block*/rotate_output since it was opened == uncompressed size (+1 closing byte when closed by destruction with >=1 block). "
              "Non-trivial: >=1 block and (block > 2 KiB | rotation | compression | empty optional structure).",
         level_text="model-free accounting identity checked over random histories; independent decompression",
         level_note="encoder-level return values are decided by C06; this check covers exporter/serialisation sums",
         technique="property-based testing: stateful histories (rapidcheck) with accounting invariant",
         assumptions=[],
-        jobs=[dict(harness="hist", prop="hist_c10", cases=(8000, 200000), size=(40, 120))],
+        jobs=[
+            dict(harness="hist", prop="hist_c10", cases=(8000, 200000), size=(40, 120)),
+            dict(harness="tables", prop="c10_struct", cases=(48000, 1600000), size=(30, 60)),
+        ],
     ),
     "C12": dict(
         rule="(a) EXHAUSTIVE: every sequence of length 5 (thorough: 7) over the alphabet {qr storable, qr unstorable, aec key1, aec key2, mm, write_block, set_active(other set), counter query} x "
